@@ -10,4 +10,4 @@ Extraction "model.ml" drv_b2n drv_n2b drv_z_of_n drv_n_of_z drv_nat_of_n drv_n_o
   mkEnv mkGV mkSt mkMsg validate_vote_message store_own prevoted_block determine_precommit
   attempt_to_finalize total_votes threshold number known no_tie prevote_candidates hash_conflict
   spec_supermajority spec_ghost spec_tolerant stored_ok lookup depth ancb
-  determine_prevote spec_votes unit_ws later_below follows_view.
+  determine_prevote spec_votes unit_ws later_below follows_view has_supermajority.
